@@ -32,14 +32,72 @@ type colDesc struct {
 
 func buildTemplate(cols []colDesc) jsonline.Template {
 	t := jsonline.NewTemplate()
-	for _, c := range cols {
+	buildTemplateCount++
+	for i, c := range cols {
 		if c.isSub {
 			t = t.WithRow(c.name, buildTemplate(c.sub))
-		} else {
-			t = t.With(c.name, formatByName[c.format], tySample[c.ty])
+			continue
 		}
+		// every second column (in turn) is declared through the builder method named after its format instead of With
+		if (buildTemplateCount+i)%2 == 0 {
+			if nt := declareByName(t, c); nt != nil {
+				t = nt
+				continue
+			}
+		}
+		t = t.With(c.name, formatByName[c.format], tySample[c.ty])
 	}
 	return t
+}
+
+var buildTemplateCount int
+
+// declareByName declares a column with WithString / WithMappedString … (nil when the format has no such method
+// for this raw type: hidden with a raw type).
+func declareByName(t jsonline.Template, c colDesc) jsonline.Template {
+	if c.ty == "none" {
+		switch c.format {
+		case "string":
+			return t.WithString(c.name)
+		case "numeric":
+			return t.WithNumeric(c.name)
+		case "boolean":
+			return t.WithBoolean(c.name)
+		case "binary":
+			return t.WithBinary(c.name)
+		case "date":
+			return t.WithDate(c.name)
+		case "datetime":
+			return t.WithDateTime(c.name)
+		case "timestamp":
+			return t.WithTimestamp(c.name)
+		case "auto":
+			return t.WithAuto(c.name)
+		case "hidden":
+			return t.WithHidden(c.name)
+		}
+		return nil
+	}
+	ty := tySample[c.ty]
+	switch c.format {
+	case "string":
+		return t.WithMappedString(c.name, ty)
+	case "numeric":
+		return t.WithMappedNumeric(c.name, ty)
+	case "boolean":
+		return t.WithMappedBoolean(c.name, ty)
+	case "binary":
+		return t.WithMappedBinary(c.name, ty)
+	case "date":
+		return t.WithMappedDate(c.name, ty)
+	case "datetime":
+		return t.WithMappedDateTime(c.name, ty)
+	case "timestamp":
+		return t.WithMappedTimestamp(c.name, ty)
+	case "auto":
+		return t.WithMappedAuto(c.name, ty)
+	}
+	return nil
 }
 
 func descStr(cols []colDesc) string {
@@ -96,15 +154,33 @@ func lineOutcome(w *recWriter, err error, pan string) string {
 func runLine(ti, to jsonline.Template, line []byte) (*recWriter, error, string) {
 	w := &recWriter{failAt: -1}
 	var err error
+	runLineCount++
+	variant := runLineCount % 4
 	pan := guard(func() {
-		imp := ti.GetImporter(bytes.NewReader(append(append([]byte{}, line...), '\n')))
-		exp := to.GetExporter(w)
-		if !imp.Import() {
-			err = fmt.Errorf("no line scanned")
-			return
+		// the same pipeline through the equivalent spellings of the API, in turn: importer and exporter obtained
+		// from the template or built on their own and given the template; the row fetched with Import + GetRow or
+		// with ReadOne
+		rd := bytes.NewReader(append(append([]byte{}, line...), '\n'))
+		var imp jsonline.Importer
+		var exp jsonline.Exporter
+		if variant&1 == 0 {
+			imp, exp = ti.GetImporter(rd), to.GetExporter(w)
+		} else {
+			imp, exp = jsonline.NewImporter(rd).WithTemplate(ti), jsonline.NewExporter(w).WithTemplate(to)
 		}
 		var row jsonline.Row
-		row, err = imp.GetRow()
+		if variant&2 == 0 {
+			if !imp.Import() {
+				err = fmt.Errorf("no line scanned")
+				return
+			}
+			row, err = imp.GetRow()
+		} else {
+			row, err = imp.ReadOne()
+			if err == nil && row == nil {
+				err = fmt.Errorf("no line scanned")
+			}
+		}
 		if err != nil {
 			return
 		}
@@ -112,6 +188,8 @@ func runLine(ti, to jsonline.Template, line []byte) (*recWriter, error, string) 
 	})
 	return w, err, pan
 }
+
+var runLineCount int
 
 // runLineAfter does what jl does for `line` when `before` went through the same importer and exporter
 // first (and, typically, failed): only what the second line caused is returned.
